@@ -1,8 +1,13 @@
 (* process_posting: no Panic, exact results of the three posting shapes (unconstrained,
    assignment, explicit amount), frame and well-formedness. *)
 From Coq Require Import List NArith ZArith Bool QArith Qcanon Lia.
-From Okv Require Import Base.Maps Base.Dec Model.Amount Model.Book Model.BookSpec
-  Proofs.BookA_Maps Proofs.BookA_Amount.
+From Okv Require Import Base.Maps.
+From Okv Require Import Base.Dec.
+From Okv Require Import Model.Amount.
+From Okv Require Import Model.Book.
+From Okv Require Import Model.BookSpec.
+From Okv Require Import Proofs.BookA_Maps.
+From Okv Require Import Proofs.BookA_Amount.
 Import ListNotations.
 Open Scope Qc_scope.
 
